@@ -387,6 +387,17 @@ func ComputedFieldIdentifierName(name string) string {
 	return cased + "_"
 }
 
+// The name of the nested class that represents a union case, e.g. "MyUnion.Int32".
+// A tag such as "none" would otherwise become the keyword "None".
+func UnionCaseIdentifierName(tag string) string {
+	cased := formatting.ToPascalCase(tag)
+	if _, reserved := reservedNames[cased]; !reserved {
+		return cased
+	}
+
+	return cased + "_"
+}
+
 func TypeIdentifierName(name string) string {
 	if _, reserved := reservedNames[name]; !reserved {
 		return name
